@@ -36,6 +36,8 @@ def main(args):
         return sensitivity(args[1:])
     if cmd == "noalarm":
         return noalarm(args[1:])
+    if cmd == "fixed":
+        return fixed()
     print("unknown selftest", cmd)
     return 2
 
@@ -259,3 +261,39 @@ def noalarm(args):
             shutil.rmtree(scratch, ignore_errors=True)
     print(f"noalarm: {n} (change, property) pairs, alarms {alarms}")
     return 1 if alarms else 0
+
+
+# --------------------------------------------------------------------------------------
+# repaired defects stay repaired, and would be reported again if they came back
+# --------------------------------------------------------------------------------------
+
+FIXES = {"D1": "a58c061", "D2": "cfed13a", "D3": "67716a6", "D4": "266dc28"}
+
+
+def fixed():
+    """For every repaired defect: its replay files do not reproduce on /repo as it is, and do
+    reproduce on a scratch copy in which that one fix commit is reverted."""
+    bad = 0
+    for d, commit in sorted(FIXES.items()):
+        files = sorted(glob.glob(os.path.join(core.VERIF_DIR, "findings", d, "*.json")))
+        scratch, repo = _scratch_copy()
+        try:
+            diff = subprocess.run(["git", "-C", core.REPO, "show", "--format=", commit], stdout=subprocess.PIPE).stdout
+            p = subprocess.run(["patch", "-R", "-p1", "-s", "-d", repo], input=diff, stdout=subprocess.PIPE, stderr=subprocess.STDOUT)
+            if p.returncode != 0:
+                print(f"fixed {d}: cannot revert {commit} in the scratch copy: {p.stdout.decode()[:200]}")
+                bad += 1
+                continue
+            for f in files:
+                cmd = [sys.executable, os.path.join(core.VERIF_DIR, "sim", "cli.py"), "replay", f]
+                now = subprocess.run(cmd, env=dict(os.environ, VERIF_REPO=core.REPO), stdout=subprocess.PIPE, stderr=subprocess.STDOUT)
+                back = subprocess.run(cmd, env=dict(os.environ, VERIF_REPO=repo), stdout=subprocess.PIPE, stderr=subprocess.STDOUT)
+                ok = now.returncode == 0 and back.returncode == 1
+                print(f"fixed {d} {os.path.basename(f)}: on the repaired tree exit={now.returncode} (want 0), with {commit} reverted exit={back.returncode} (want 1) {'ok' if ok else 'UNEXPECTED'}")
+                if not ok:
+                    bad += 1
+                    print(now.stdout.decode()[-400:])
+                    print(back.stdout.decode()[-400:])
+        finally:
+            shutil.rmtree(scratch, ignore_errors=True)
+    return 1 if bad else 0
